@@ -78,7 +78,7 @@ class StatModel(dd._Model):
             raise
         self.ctl.on_construct()
 
-    def h(self, k):
+    def h(self, k, tag=None):
         clk = self.ctl.conc.back(self.simulator.simulator_time)
         v = values_for(k, clk)
         self.ctl.obs.append((k, clk, v))
